@@ -411,17 +411,21 @@ func (index *PatternIndex) searchPairs(ctx *Context, pairs []piPair) (StringSet,
 		// Key not here.  Try next pair.
 		return index.searchPairs(ctx, rest)
 	}
-	ki, have := si[k]
-	if !have {
-		if !AllowPropertyVariables {
-			// Key not here.  Try next pair.
-			return index.searchPairs(ctx, rest)
+	// The key can lead to the node for that literal key and, when
+	// property variables are allowed, also to the node for the
+	// anonymous property variable.  Patterns live under both.
+	kis := make([]*PatternIndex, 0, 2)
+	if ki, have := si[k]; have {
+		kis = append(kis, ki)
+	}
+	if AllowPropertyVariables && k != "?" {
+		if ki, have := si["?"]; have {
+			kis = append(kis, ki)
 		}
-		// Check for anonymous variable.
-		if ki, have = si["?"]; !have {
-			// Key not here.  Try next pair.
-			return index.searchPairs(ctx, rest)
-		}
+	}
+	if len(kis) == 0 {
+		// Key not here.  Try next pair.
+		return index.searchPairs(ctx, rest)
 	}
 	// We took a step down.
 
@@ -434,11 +438,13 @@ func (index *PatternIndex) searchPairs(ctx *Context, pairs []piPair) (StringSet,
 	next = append(next, index)
 
 	// First check for Variable.
-	vi := ki.Var
-	if vi != nil {
-		// Yes, there is one.
-		ids.AddAll(vi.Ids)
-		next = append(next, vi)
+	for _, ki := range kis {
+		vi := ki.Var
+		if vi != nil {
+			// Yes, there is one.
+			ids.AddAll(vi.Ids)
+			next = append(next, vi)
+		}
 	}
 
 	v = picast(ctx, v)
@@ -448,34 +454,37 @@ func (index *PatternIndex) searchPairs(ctx *Context, pairs []piPair) (StringSet,
 		if strings.HasPrefix(vv, "?") {
 			return nil, fmt.Errorf("Can't have variables (%s) in these things", vv)
 		}
-		si := ki.String
-		if si != nil {
-			i, have := si[vv]
-			if have {
-				ids.AddAll(i.Ids)
-				next = append(next, i)
+		for _, ki := range kis {
+			si := ki.String
+			if si != nil {
+				i, have := si[vv]
+				if have {
+					ids.AddAll(i.Ids)
+					next = append(next, i)
+				}
 			}
 		}
 
 	case Map, map[string]interface{}:
-		mi := ki.Map
-		if mi != nil {
-			var mp map[string]interface{}
-			switch v.(type) {
-			case Map:
-				mp = (map[string]interface{})(v.(Map))
-			case map[string]interface{}:
-				mp = vv.(map[string]interface{})
+		var mp map[string]interface{}
+		switch v.(type) {
+		case Map:
+			mp = (map[string]interface{})(v.(Map))
+		case map[string]interface{}:
+			mp = vv.(map[string]interface{})
+		}
+		for _, ki := range kis {
+			mi := ki.Map
+			if mi != nil {
+				morePairs := mapToPairs(ctx, mp)
+				morePairs = append(morePairs, rest...)
+				more, err := mi.searchPairs(ctx, morePairs)
+				if err != nil {
+					return nil, err
+				}
+				ids.AddAll(more)
+				next = append(next, mi)
 			}
-
-			morePairs := mapToPairs(ctx, mp)
-			morePairs = append(morePairs, rest...)
-			more, err := mi.searchPairs(ctx, morePairs)
-			if err != nil {
-				return nil, err
-			}
-			ids.AddAll(more)
-			next = append(next, mi)
 		}
 
 		// mapPairs := mapToPairs(ctx, &vv)
